@@ -1121,7 +1121,8 @@ fn run_case(rep: &mut Report, case: u64) {
                 _ => w.op_register()?,
             }
             let big = w.model.handles.len() > 256;
-            if !big || step % 16 == 0 {
+            let lite = cfg.extra_u64("lite", 0);
+            if (lite > 0 && step as u64 % lite == 0) || (lite == 0 && (!big || step % 16 == 0)) {
                 w.check_all(false)?;
             } else {
                 w.check_ledger()?;
